@@ -5,3 +5,7 @@ import XmppVerif.Props.C17
 import XmppVerif.Drv.C17
 import XmppVerif.Props.C19
 import XmppVerif.Drv.C19
+import XmppVerif.Props.C20
+import XmppVerif.Drv.C20
+import XmppVerif.Props.C15
+import XmppVerif.Drv.C15
